@@ -10,6 +10,10 @@ import DymVerif.Gen.Guards
                                         | rej grant <alias> | rej unpack
        T ::= <alias> <authAlias|-> <bad:0|1> <k> T1 … Tk
   path <i,j,…|-> <k> T1 … Tk         -> at <alias> depth <d> | none      (M-Ante `reach`)
+  xo <alias> <critURL|-> <ncURL|->   -> ok          (alias for a set of extension options; only the first critical one routes)
+  rtx <extAlias|-> <mode:d|c|r> <k> T1 … Tk
+                                     -> the `tx` observations | rej noteth | rej unknown-ext
+                                        (M-Ante `runAnte` over the regenerated route table; r = ReCheckTx)
   wrappers                           -> sorted Go types of the wrappers that execute packed messages
   signer <module.Msg>                -> Go field path of the message's signer (regenerated table)
   own <obj> <actor>                  -> ok          (fixture: object `obj` is owned by actor)
@@ -23,6 +27,7 @@ open DymVerif DymVerif.Ante DymVerif.Driver
 
 structure St where
   aliases : List (String × Nat) := []
+  exts : List (String × Option String) := []
   owners : Owners := []
 
 def tyId (goName : String) : Nat :=
@@ -84,6 +89,17 @@ def step (s : St) (f : List String) : St × String :=
   | "tx" :: k :: rest =>
     match parseMsgs s (nat! k) rest with
     | some (ms, []) => (s, showErr s (anteCheck Gen.Ante.config ms))
+    | _ => (s, "bad-op")
+  | ["xo", a, crit, _] => ({ s with exts := (a, if crit = "-" then none else some crit) :: s.exts }, "ok")
+  | "rtx" :: ea :: mode :: k :: rest =>
+    match parseMsgs s (nat! k) rest with
+    | some (ms, []) =>
+      let ext : Option String := if ea = "-" then none else (s.exts.lookup ea).getD (some ("?" ++ ea))
+      match runAnte Gen.Ante.config Gen.Ante.routes (mode = "r") ext ms with
+      | none => (s, "ok")
+      | some (.ante e) => (s, showErr s (some e))
+      | some (.notEth _) => (s, "rej noteth")
+      | some .unknownExt => (s, "rej unknown-ext")
     | _ => (s, "bad-op")
   | "path" :: ps :: k :: rest =>
     -- the node addressed by an index path (descending through the hub's real wrappers only)
